@@ -315,6 +315,11 @@ def judge(case, out):
                         dict(base_sig, side=me),
                         f'{me} bonded but its key store holds {list(st)} (entry equals the reported keys: {[v == k for v in st.values()]})',
                     )
+        if not bonded:
+            # without negotiated bonding an implementation may keep the keys or not, but not on one side only (a later
+            # connection would find a key at one end and none at the other)
+            if bool(out['stores']['i']) != bool(out['stores']['r']):
+                bad('keys_stored_on_one_side_only', base_sig, f'bonding flags initiator {ini["bond"]} / responder {rsp["bond"]}: key store of the initiator holds {list(out["stores"]["i"])}, of the responder {list(out["stores"]["r"])}')
         if bonded and case.get('reenc'):
             reenc_summary = []
             if 'error' in out['reenc']:
@@ -363,6 +368,10 @@ def judge(case, out):
         info['second_pairings'] = 1
         if rp['handle_reused']:
             info['second_pairing_on_reused_handle'] = 1
+        for e in rp.get('enc') or []:
+            if e['answer'] != e['ltk']:
+                bad('pairing_link_key_mismatch', {'pairing': 'second', 'sc': bool(ini['sc'] and rsp['sc'])},
+                    f'during the second pairing the central encrypted with {e["ltk"]} but the peripheral host answers the key request with {e["answer"]} (a key of the first pairing?)')
         if rp['hang'] or second != first:
             bad(
                 'second_pairing_differs',
